@@ -277,14 +277,7 @@ inline void onYield(void* evp, void* stmt) {
     }
     if (g_observer) g_observer(ev, stmt, y, ev->m_gcRequested.load());
     if (g_sched.injectErrorAtYield >= 0 && !g_injected && (int64_t)y >= g_sched.injectErrorAtYield) {
-        // An error raised while a user destructor is on the stack escapes a shared_ptr deleter
-        // (known finding D13); the injected fault models an ordinary failing statement, so it is
-        // deferred to the first boundary outside any destructor.
-        bool inDtor = false;
-        for (auto& scope : ev->m_env) {
-            auto it = scope.find("this");
-            if (it != scope.end() && it->second.value.objectValue && it->second.value.objectValue->destroyed) { inDtor = true; break; }
-        }
+        bool inDtor = false;  // since fix D13 an error may strike inside a user destructor as well
         if (!inDtor) {
             g_injected = true;
             g_stats.injectedAtYield = (int64_t)y;
